@@ -247,6 +247,40 @@ func C07(p *core.Program, r *core.Report) {
 	// epidemic routing admits a bundle for a local endpoint to dispatching (and so to local delivery) by the
 	// destination it recorded in the store item when the bundle was announced: that record must be written back
 	checkPropertiesPersisted(p, r)
+	// "handed to every registered agent, once per accepted copy" for a bundle that arrives in fragments: the second
+	// fragment must be filed at all (the same construct as under C05)
+	checkFragmentIdentity(p, r)
+	checkHandOverConfirmed(p, r)
+}
+
+// checkHandOverConfirmed: AgentManager.Deliver releases the bundle (removes LocalEndpoint, returns nil, which makes
+// localDelivery report "delivered" and delete the bundle) on the strength of HasEndpoint() asked BEFORE the message is
+// put into the MuxAgent's channel. Who takes the message is decided later, in MuxAgent.handle, child by child. A
+// client that unregisters in between leaves nobody to take it. Necessary for "a delivery is reported only if such a
+// hand-over took place": the success result depends on something the hand-over itself produced (a count of takers,
+// an error), not only on a test made before it.
+func checkHandOverConfirmed(p *core.Program, r *core.Report) {
+	dl := p.Func(routingPkg, "AgentManager", "Deliver")
+	var sends []*ssa.Send
+	core.EachInstr(dl, func(in ssa.Instruction) {
+		if s, ok := in.(*ssa.Send); ok {
+			sends = append(sends, s)
+		}
+	})
+	confirmed := len(sends) == 0
+	for _, ret := range core.Returns(dl) {
+		if len(ret.Results) == 0 || !core.IsNilConst(ret.Results[len(ret.Results)-1]) {
+			continue
+		}
+		// a nil result reached straight after a fire-and-forget channel send
+		for _, s := range sends {
+			if s.Block() == ret.Block() || core.BlocksReachableFrom(s.Block())[ret.Block()] {
+				confirmed = false
+			}
+		}
+	}
+	r.Count("message hand-overs in AgentManager.Deliver", len(sends))
+	r.Check(confirmed, "hand-over/"+fname(dl)+"/confirmed-by-recipient", "Deliver reports success only when the hand-over itself says that somebody took the message", p.Pos(dl.Pos()), "", "success is returned after an asynchronous channel send; the only test of 'is anybody registered' precedes it (HasEndpoint), so a client leaving in between makes the node report a delivery and delete the bundle although nobody got it")
 }
 
 // checkAgentsAlwaysDrain: the MuxAgent hands a message to a child while it
